@@ -374,9 +374,24 @@ func resetOrdinals() { ordinalSeen = map[string]int{} }
 func hyperOrderingConvention(c *Ctx, rule string) {
 	p := c.P
 	sp := p.SSAPkg[modPkg(pkgHyper)]
-	isCmpLT0 := func(a *Term) bool {
-		// LT(call bytes.Compare(x, y), 0)
-		return a.Op == "LT" && a.Args[1].Op == "const" && a.Args[1].Name == "0" && isBoolCallTo("bytes", "Compare")(a.Args[0])
+	// lessOf: the atom says "x < y" for byte strings — Compare(x, y) < 0 or, with the operands the
+	// other way round, Compare(y, x) > 0; returns (x, y)
+	lessOf := func(a *Term) (x, y *Term, ok bool) {
+		if a.Op != "LT" {
+			return nil, nil, false
+		}
+		isZero := func(t *Term) bool { return t.Op == "const" && t.Name == "0" }
+		isCmp := isBoolCallTo("bytes", "Compare")
+		switch {
+		case isCmp(a.Args[0]) && isZero(a.Args[1]) && len(a.Args[0].Args) == 2: // cmp(x,y) < 0
+			return a.Args[0].Args[0], a.Args[0].Args[1], true
+		case isZero(a.Args[0]) && isCmp(a.Args[1]) && len(a.Args[1].Args) == 2: // 0 < cmp(y,x)
+			return a.Args[1].Args[1], a.Args[1].Args[0], true
+		}
+		return nil, nil, false
+	}
+	isRightIndex := func(t *Term) bool {
+		return t.IsField("Index", func(b *Term) bool { return b.Op == "call" && b.Fn != nil && b.Fn.Name() == "Right" })
 	}
 	nA, nB := 0, 0
 	type posTrav struct {
@@ -447,9 +462,9 @@ func hyperOrderingConvention(c *Ctx, rule string) {
 				return
 			}
 			nA++
-			ok := isCmpLT0(cmp.Atom) && cmp.Atom.Args[0].Args[1].IsField("Index", func(b *Term) bool {
-				return b.Op == "call" && b.Fn != nil && b.Fn.Name() == "Right"
-			}) && (side == "Left") == cmp.Pol
+			// "key < right.Index" decides Left; its negation Right
+			_, y, isLess := lessOf(cmp.Atom)
+			ok := isLess && isRightIndex(y) && (side == "Left") == cmp.Pol
 			c.Check(ok, rule, ordinalLabel(funcName(fn)+":descent-"+side), in.Pos(), "Left under key < right.Index, Right otherwise", "the descent to "+side+" is taken under "+cmp.String()+": every traversal must send a key that equals Right(pos).Index to the right (go left exactly when Compare(key, right.Index) < 0), or prover, verifier and inserter disagree on keys that sit on a split point")
 		})
 	}
@@ -492,7 +507,9 @@ func hyperOrderingConvention(c *Ctx, rule string) {
 				if ret, isR := b.Instrs[len(b.Instrs)-1].(*ssa.Return); isR && len(ret.Results) == 1 {
 					cd := p.condOf(ret.Results[0], true)
 					got = cd.String()
-					okB = isCmpLT0(cd.Atom) && !cd.Pol
+					// predicate "l[i] >= key" = not (l[i] < key): x is the list element
+					x, _, isLess := lessOf(cd.Atom)
+					okB = isLess && !cd.Pol && x.HasLocal(func(e *Term) bool { return e.Op == "index" })
 				}
 			}
 			c.Check(okB, rule, ordinalLabel(funcName(fn)+":split"), in.Pos(), "split at the smallest i with l[i] >= right.Index", "the list is split with the predicate "+got+": the halves must be [l[i] < key) and [l[i] >= key) (predicate Compare(l[i], key) >= 0) like every other traversal, or an element equal to the split point goes to the other side than the one it was inserted on")
